@@ -84,6 +84,13 @@ PROVED = {
          "invariant over the reader's stack; transferred to the buffered machine for every capacity and chunking. PARTIAL: declared paths without "
          "global placeholders; Full items via C09_full_decomposes; raw tags, global elements and destination write scripts are covered by the "
          "correspondence run (write-then-read of random conformant documents incl. boundary payload lengths, widths, Full, unknown sizes, raw tags).", ""),
+ "C02": ("PARTIAL. Theorem C02_fixpoint_partial: for every strict configuration and every conforming document in ANY encoding (zero-padded or empty "
+         "integers, 4-byte floats, any size width incl. 8-byte fields, any subset of unknown-size masters closed by a following element or EOF), the "
+         "tags the reader yields are all accepted by the writer under default options, its output is the canonical encoding, and reading that yields the "
+         "identical tag sequence (values keep their meaning: decoded values are proved to lie in the range the encoders invert, incl. widened f32). "
+         "Hypothesis: the re-encoding's sizes stay below 2^56-1 and the reader's size limit. Restricted to documents (streams read without error "
+         "from a root element) with placeholder-free declared paths; global elements, mid-stream errors and reader/writer validator agreement on "
+         "arbitrary accepted streams are covered by the correspondence run (read-write-read on mutated/hand-crafted streams).", ""),
  "C07": ("Theorems: the closing rule (count_ended = the largest k such that the k innermost open masters have unknown size and the outermost of them is "
          "ended by the element; nothing closes below a known-size master); C07_items_partial / C07_encoding_choices_irrelevant_partial: every conforming "
          "document reads as its items with each unknown-size master's End right before the next element outside of it or at the end of input, so two "
